@@ -13,9 +13,15 @@ package main
 //           conc: 1 if 16 concurrent calls all returned the sequential result, 0 if not
 
 import (
+	"bufio"
+	"bytes"
 	"crypto/sha1"
+	"encoding/hex"
 	"fmt"
+	"os"
+	"os/exec"
 	"sort"
+	"strings"
 	"sync"
 	"time"
 
@@ -30,6 +36,7 @@ import (
 
 func init() {
 	props["C06"] = genC06
+	props["C06child"] = childC06
 	replays["C06"] = replayC06
 	// the library logs warnings on STDOUT through env_logger; they would corrupt the case stream
 	l := logrus.New()
@@ -171,9 +178,88 @@ type c06case struct {
 
 var c06hist = map[string]int{}
 
-// runBatch: sequential results first, then every case again from 16 goroutines at once
-// (each goroutine walks the batch from a different starting point).
+// runBatch runs the cases in a CHILD process (this binary, sub-command C06child) under an
+// address-space limit: a fatal runtime error (out of memory on an attacker-chosen allocation,
+// stack exhaustion, concurrent map access) kills only the child.  When the child dies the batch is
+// bisected down to the single crashing case, which is reported with status `crash`.
 func runBatch(cases []c06case) {
+	if len(cases) == 0 {
+		return
+	}
+	lines, ok := runChild(cases)
+	if ok {
+		for _, l := range lines {
+			out.WriteString(l + "\n")
+		}
+		for _, c := range cases {
+			c06hist[c.kind]++
+		}
+		return
+	}
+	if len(cases) == 1 {
+		var in []Sx
+		for _, b := range cases[0].input {
+			in = append(in, Sx(b))
+		}
+		c06hist[cases[0].kind+":crash"]++
+		emit(L(Sym("c06"), Sym(cases[0].kind), in, L(Sym("crash"), 0, 0, true, Sym("d"))))
+		return
+	}
+	runBatch(cases[:len(cases)/2])
+	runBatch(cases[len(cases)/2:])
+}
+
+func runChild(cases []c06case) ([]string, bool) {
+	var in bytes.Buffer
+	for _, c := range cases {
+		in.WriteString(c.kind)
+		for _, b := range c.input {
+			in.WriteString(" " + hex.EncodeToString(b) + ".")
+		}
+		in.WriteString("\n")
+	}
+	cmd := exec.Command("/bin/sh", "-c", "ulimit -v 6000000; exec \"$0\" C06child", os.Args[0])
+	cmd.Stdin = &in
+	var outb bytes.Buffer
+	cmd.Stdout = &outb
+	if err := cmd.Run(); err != nil {
+		return nil, false
+	}
+	var lines []string
+	for _, l := range strings.Split(outb.String(), "\n") {
+		if strings.HasPrefix(l, "(c06 ") {
+			lines = append(lines, l)
+		}
+	}
+	if len(lines) != len(cases) {
+		return nil, false
+	}
+	return lines, true
+}
+
+// child: reads "kind hex. hex. ..." lines, runs them sequentially and from 16 goroutines, prints cases
+func childC06(tier string, rng *Rng) {
+	sc := bufio.NewScanner(os.Stdin)
+	sc.Buffer(make([]byte, 1<<20), 1<<28)
+	var cases []c06case
+	for sc.Scan() {
+		f := strings.Fields(sc.Text())
+		if len(f) == 0 {
+			continue
+		}
+		c := c06case{kind: f[0]}
+		for _, h := range f[1:] {
+			b, _ := hex.DecodeString(strings.TrimSuffix(h, "."))
+			c.input = append(c.input, b)
+		}
+		cases = append(cases, c)
+	}
+	runBatchInProcess(cases)
+}
+
+// runBatchInProcess: sequential results first, then every case again from 16 goroutines at once
+// (each goroutine walks the batch from a different starting point).
+func runBatchInProcess(cases []c06case) {
 	seq := make([]c06res, len(cases))
 	for i, c := range cases {
 		seq[i] = runKind(c.kind, c.input)
@@ -208,7 +294,6 @@ func runBatch(cases []c06case) {
 		for _, b := range c.input {
 			in = append(in, Sx(b))
 		}
-		c06hist[c.kind+":"+seq[i].status]++
 		emit(L(Sym("c06"), Sym(c.kind), in, L(Sym(seq[i].status), seq[i].n, seq[i].nils, conc[i], Sym("d"+seq[i].digest))))
 	}
 }
@@ -379,7 +464,7 @@ func genC06(tier string, rng *Rng) {
 	}
 	add := func(kind string, input [][]byte) {
 		batch = append(batch, c06case{kind, input})
-		if len(batch) >= 200 {
+		if len(batch) >= 400 {
 			flush()
 		}
 	}
